@@ -57,3 +57,24 @@ def source_of_rels(rels_part):
     d = d[: -len("/_rels")] if d.endswith("/_rels") else ("" if d == "_rels" else d)
     f = f[: -len(".rels")]
     return (d + "/" + f) if d else f
+
+
+# Parts that a sheet carried over unparsed may bring along, next to parts of another kind in the same folder.
+# Probe names for the override rules: the rule chain must give them their own type or none at all (-> recorded type /
+# Default), never the type of their neighbours.
+CARRIED = {
+    "xl/charts/style1.xml": "application/vnd.ms-office.chartstyle+xml",
+    "xl/charts/colors1.xml": "application/vnd.ms-office.chartcolorstyle+xml",
+    "xl/charts/_rels/chart1.xml.rels": "application/vnd.openxmlformats-package.relationships+xml",
+    "xl/drawings/_rels/drawing1.xml.rels": "application/vnd.openxmlformats-package.relationships+xml",
+    "xl/worksheets/_rels/sheet1.xml.rels": "application/vnd.openxmlformats-package.relationships+xml",
+    "xl/ctrlProps/ctrlProp1.xml": "application/vnd.ms-excel.controlproperties+xml",
+    "xl/pivotTables/pivotTable1.xml": M + "spreadsheetml.pivotTable+xml",
+    "xl/pivotCache/pivotCacheDefinition1.xml": M + "spreadsheetml.pivotCacheDefinition+xml",
+    "xl/pivotCache/pivotCacheRecords1.xml": M + "spreadsheetml.pivotCacheRecords+xml",
+    "xl/threadedComments/threadedComment1.xml": "application/vnd.ms-excel.threadedcomments+xml",
+    "xl/persons/person.xml": "application/vnd.ms-excel.person+xml",
+    "xl/diagrams/data1.xml": M + "drawingml.diagramData+xml",
+    "xl/media/image1.png": None,
+    "customXml/item1.xml": None,
+}
